@@ -8,26 +8,32 @@ fields, file header, CRC, chained files) and the decoder's framing with its time
 A field value is the byte string it marshals to; that `unmarshal ∘ marshal` is the identity up to the
 documented normal form is C06 (`FitProps/C06.lean`), what validation retains is C10.
 
-PROPERTY THEOREMS: C01_wire_records, C01_wire_sequence, C01_wire_chain, C01_ts_nonmonotone_witness,
-C01_wire_records_full_fails
+PROPERTY THEOREMS: C01_wire_records, C01_wire_sequence, C01_wire_chain, C01_ts_nonmonotone_roundtrip,
+C01_ts_wild_roundtrip, C01_fix_conservative
+
+History: on the pinned tree the compressed-timestamp part held for valid, unique, non-decreasing timestamps
+only (finding KF-C01-ts: t, t+20, t+5 came back as t, t+20, t+37). Repaired in /repo by the `fix:` commit
+recorded in known_findings.jsonl (the encoder tracks the last timestamp a decoder has seen); the model follows
+the repaired code and the hypothesis `TsMono` is gone: the theorems quantify over ALL message lists.
 -/
 namespace Fit.C01
 open Fit.Wire
 
 /-- RECORDS. For every message list, every option combination (byte order, header option, 1..16 local
-message types — hence every eviction pattern of the LRU), from any related encoder/decoder state:
+message types — hence every eviction pattern of the LRU), whatever factory the decoder has (`tsKnown`):
 decoding the record bytes the encoder writes returns, message by message, the same message number,
 byte order, developer fields and fields in order — a compressed timestamp comes back as the original
-full timestamp. In compressed-header mode the message timestamps must be valid and non-decreasing
-(`TsMono`; the pinned tree violates the property otherwise: `C01_ts_nonmonotone_witness`). -/
+full timestamp. No hypothesis on timestamps: they may go backwards, repeat, be invalid, lie below
+`DateTimeMin`, occur several times in a message or be of any type and size (`MsgOK` is typing only: counts
+and sizes fit a byte, base types are valid, data are bytes). -/
 theorem C01_wire_records (tsKnown : Nat → Bool) (o : Opts) (ho : OptsOK o) (ms : List WMsg)
-    (hok : ∀ m ∈ ms, MsgOK m) (hts : o.compress = true → TsMono o.arch 0 ms) (tail : Bytes) :
+    (hok : ∀ m ∈ ms, MsgOK m) (tail : Bytes) :
     ∃ items, decodeRecords tsKnown ((encodeMsgs o (freshEnc o) ms).length + tail.length) DecState.fresh
         (encodeMsgs o (freshEnc o) ms).length (encodeMsgs o (freshEnc o) ms ++ tail) = (items, .ok tail) ∧
       AllMatch (RecMatches o.arch) ms (dataOf items) :=
-  encodeMsgs_roundtrip tsKnown o ho.arch ms (freshEnc o) DecState.fresh 0 hok
+  encodeMsgs_roundtrip tsKnown o ho.arch ms (freshEnc o) DecState.fresh hok
     (DefInv.fresh o.arch o.lruCap ho.capPos ho.cap16 _) ho.cap4
-    (fun hc => ⟨⟨rfl, rfl, Nat.le_refl _, by simp [freshEnc], by decide⟩, hts hc⟩) tail _ (by omega)
+    (fun _ => Or.inl rfl) tail _ (by omega)
 
 /-- ONE FIT SEQUENCE (header, records, CRC), with or without checksum verification: `Decode` succeeds,
 consumes exactly the sequence, returns the header the encoder wrote (size, versions, data size = exact
@@ -64,65 +70,97 @@ example : (decodeStream (fun n => n == 20 || n == 21) true 3 true (encodeChain e
       (fun f => (dataOf f.items).map (·.ts))) = [[none, none, some 1000000005, some 1000000005, some 1000000031, none]] := by
   decide +kernel
 
-/-! ### the pinned tree violates the full property for non-monotonic timestamps (finding KF-C01-ts) -/
+/-! ### the former finding KF-C01-ts: non-monotonic timestamps now round-trip -/
 
-/-- timestamps t, t+20, t+5 under compressed headers -/
+/-- timestamps t, t+20, t+5 under compressed headers (the witness of KF-C01-ts) -/
 def kfMsgs : List WMsg :=
   [ ⟨20, [exTs 1000000000, ⟨3, 0x02, 3, [70]⟩], []⟩,
     ⟨20, [exTs 1000000020, ⟨3, 0x02, 3, [71]⟩], []⟩,
     ⟨20, [exTs 1000000005, ⟨3, 0x02, 3, [72]⟩], []⟩ ]
 
-/-- …decode as t, t+20, t+37: the third message comes back with a timestamp it never had. The encoder
-compares with a reference that moves only on roll-over, the decoder with the last timestamp it saw. -/
-theorem C01_ts_nonmonotone_witness :
-    ((seqsOf (decodeStream (fun n => n == 20) true 3 true (encodeChain exOpts [(⟨14, 32, 2158⟩, kfMsgs)])).1).map
-      (fun f => (dataOf f.items).map (·.ts))) = [[none, some 1000000020, some 1000000037]] ∧
-    kfMsgs.map (tsOf 1) = [1000000000, 1000000020, 1000000005] := by
-  decide +kernel
-
-/-- the full statement (no hypothesis on timestamps) is therefore false of the model — and of the code it is tied to -/
-def C01_wire_records_full : Prop :=
-  ∀ (tsKnown : Nat → Bool) (o : Opts), OptsOK o → ∀ ms : List WMsg, (∀ m ∈ ms, MsgOK m) → ∀ tail,
-    ∃ items, decodeRecords tsKnown ((encodeMsgs o (freshEnc o) ms).length + tail.length) DecState.fresh
-        (encodeMsgs o (freshEnc o) ms).length (encodeMsgs o (freshEnc o) ms ++ tail) = (items, .ok tail) ∧
-      AllMatch (RecMatches o.arch) ms (dataOf items)
+theorem exOpts_ok : OptsOK exOpts := ⟨Or.inr rfl, by decide, by decide, fun _ => by decide⟩
 
 theorem kf_ok : ∀ m ∈ kfMsgs, MsgOK m := by
   intro m hm
   simp only [kfMsgs, List.mem_cons, List.not_mem_nil, or_false] at hm
   rcases hm with rfl | rfl | rfl <;>
-  exact ⟨by decide, by decide, by decide, by intro f hf; simp [exTs] at hf; rcases hf with rfl | rfl <;> decide, by intro d hd; cases hd⟩
+  exact ⟨by decide, by decide, by decide, (by intro f hf; simp [exTs] at hf; rcases hf with rfl | rfl <;> decide),
+    (by intro d hd; cases hd), (by intro f hf; simp [exTs] at hf; rcases hf with rfl | rfl <;> decide)⟩
 
-theorem exOpts_ok : OptsOK exOpts := ⟨Or.inr rfl, by decide, by decide, fun _ => by decide⟩
+/-- the witness meets the hypotheses of `C01_wire_records` (non-vacuity on the formerly failing input) -/
+example : ∃ items, decodeRecords (fun n => n == 20) ((encodeMsgs exOpts (freshEnc exOpts) kfMsgs).length + 0) DecState.fresh
+      (encodeMsgs exOpts (freshEnc exOpts) kfMsgs).length (encodeMsgs exOpts (freshEnc exOpts) kfMsgs ++ []) = (items, .ok []) ∧
+    AllMatch (RecMatches exOpts.arch) kfMsgs (dataOf items) :=
+  C01_wire_records (fun n => n == 20) exOpts exOpts_ok kfMsgs kf_ok []
 
-theorem kf_decoded : (dataOf (decodeRecords (fun n => n == 20) ((encodeMsgs exOpts (freshEnc exOpts) kfMsgs).length + 0) DecState.fresh
-      (encodeMsgs exOpts (freshEnc exOpts) kfMsgs).length (encodeMsgs exOpts (freshEnc exOpts) kfMsgs ++ [])).1).map (·.ts)
-        = [none, some 1000000020, some 1000000037] := by decide +kernel
+/-- …the third message (t+5, 15 s before the last timestamp the decoder saw) is written with its full timestamp:
+the records come back as t (full), t+20 (from the header), t+5 (full) — on the pinned tree the third one was
+compressed and came back as t+37. -/
+theorem C01_ts_nonmonotone_roundtrip :
+    ((seqsOf (decodeStream (fun n => n == 20) true 3 true (encodeChain exOpts [(⟨14, 32, 2158⟩, kfMsgs)])).1).map
+      (fun f => (dataOf f.items).map (fun r => (r.ts, r.fields.length)))) = [[(none, 2), (some 1000000020, 1), (none, 2)]] ∧
+    kfMsgs.map (tsOf 1) = [1000000000, 1000000020, 1000000005] := by
+  decide +kernel
 
-theorem kf_ts3 : tsOf 1 ⟨20, [exTs 1000000005, ⟨3, 0x02, 3, [72]⟩], []⟩ = 1000000005 := by decide +kernel
+/-- a wilder history in one sequence: backwards inside the window (full), forward again (compressed against the
+NEW reference), an invalid timestamp kept in the message (full; the decoder's timestamp becomes 0xFFFFFFFF, so
+the next one is full), a one-byte field 253 (decoders disagree on it: next one full), two fields 253 in one
+message (the first travels in the header, the second stays and becomes the decoder's last timestamp, so the
+next message is full), a timestamp below DateTimeMin (full, then full again). Every compressed record carries
+its message's own first timestamp. -/
+def wildMsgs : List WMsg :=
+  let r (fs : List WField) : WMsg := ⟨20, fs ++ [⟨3, 0x02, 3, [70]⟩], []⟩
+  [ r [exTs 1000000000], r [exTs 1000000020], r [exTs 1000000005], r [exTs 1000000025],
+    r [exTs 0xFFFFFFFF], r [exTs 1000000026], r [exTs 1000000027],
+    r [⟨253, 0x02, 3, [9]⟩], r [exTs 1000000028], r [exTs 1000000029],
+    r [exTs 1000000030, exTs 1000000100], r [exTs 1000000031], r [exTs 1000000032],
+    r [exTs 5], r [exTs 1000000033], r [exTs 1000000034] ]
 
-/-- the full statement (no hypothesis on timestamps) is false of the model, and — through the correspondence
-and the replay of the same three messages on the real encoder and decoder — of the pinned code -/
-theorem C01_wire_records_full_fails : ¬ C01_wire_records_full := by
-  intro h
-  obtain ⟨items, hdec, hall⟩ := h (fun n => n == 20) exOpts exOpts_ok kfMsgs kf_ok []
-  have hk := kf_decoded
-  simp only [List.length_nil] at hdec
-  rw [hdec] at hk
-  generalize dataOf items = D at hall hk
-  simp only [kfMsgs] at hall
-  cases hall with
-  | cons _ h2 =>
-    cases h2 with
-    | cons _ h3 =>
-      cases h3 with
-      | cons hm3 h4 =>
-        cases h4
-        simp only [List.map_cons, List.map_nil, List.cons.injEq, and_true] at hk
-        obtain ⟨_, _, _, hts | ⟨hts, _⟩⟩ := hm3
-        · rw [hts.1] at hk; exact absurd hk.2.2 (by simp)
-        · rw [hts] at hk
-          have e : exOpts.arch = 1 := rfl
-          rw [e, kf_ts3] at hk; exact absurd hk.2.2 (by simp)
+theorem C01_ts_wild_roundtrip :
+    ((seqsOf (decodeStream (fun n => n == 20) true 3 true (encodeChain exOpts [(⟨14, 32, 2158⟩, wildMsgs)])).1).map
+      (fun f => (dataOf f.items).map (·.ts))) =
+      [[none, some 1000000020, none, some 1000000025, none, none, some 1000000027, none, none, some 1000000029,
+        some 1000000030, none, some 1000000032, none, none, some 1000000034]] ∧
+    (seqsOf (decodeStream (fun n => n == 20) false 3 true (encodeChain exOpts [(⟨14, 32, 2158⟩, wildMsgs)])).1).map
+      (fun f => (dataOf f.items).map (·.ts)) =
+    (seqsOf (decodeStream (fun _ => false) true 3 true (encodeChain exOpts [(⟨14, 32, 2158⟩, wildMsgs)])).1).map
+      (fun f => (dataOf f.items).map (·.ts)) := by
+  decide +kernel
+
+/-! ### what the repair leaves unchanged -/
+
+theorem fix_conservative_aux (o : Opts) (ms : List WMsg) :
+    ∀ (e : EncState) (lo : Nat), TsMono o.arch lo ms →
+      (o.compress = true → e.tsLast = lo ∧ e.tsRef ≤ lo ∧ lo - e.tsRef ≤ 31) →
+      encodeMsgs o e ms = encodeMsgsOld o (e.lru, e.tsRef) ms := by
+  induction ms with
+  | nil => intro _ _ _ _; rfl
+  | cons m ms ih =>
+    intro e lo hm hinv
+    obtain ⟨hok, hlo, hrest⟩ := hm
+    obtain ⟨h1, h2, h3, h4⟩ := step_conservative o e lo m hok hlo hinv
+    have := ih (encodeMsg o e m).1 _ hrest h4
+    simp only [encodeMsgs, encodeMsgsOld]
+    rw [h1, this, h2, h3]
+
+
+/-- BYTE-IDENTICAL WHERE THE OLD ENCODER WAS RIGHT. For message lists whose timestamps are valid date-times, at
+most one per message, and never go backwards — the inputs on which the pinned tree already met the property —
+the repaired encoder writes exactly the bytes the pinned tree's encoder wrote (same compression decisions,
+same definitions, same local message numbers). -/
+theorem C01_fix_conservative (o : Opts) (ms : List WMsg) (h : TsMono o.arch 0 ms) :
+    encodeMsgs o (freshEnc o) ms = encodeMsgsOld o (Lru.empty o.lruCap, 0) ms :=
+  fix_conservative_aux o ms (freshEnc o) 0 h (fun _ => ⟨rfl, Nat.le_refl _, by simp [freshEnc]⟩)
+
+/-- non-vacuity: the example chain of above has valid, unique, non-decreasing timestamps -/
+example : TsMono exOpts.arch 0 exMsgs := by
+  refine TsMono.cons_none (by unfold noTs; decide) ?_
+  refine TsMono.cons_ts [] [⟨3, 0x02, 3, [70]⟩] (exTs 1000000000) 1000000000 rfl (by unfold noTs; decide) (by unfold noTs; decide) rfl rfl (Or.inl rfl) (by decide) (by decide) (by decide) (by decide) ?_
+  refine TsMono.cons_ts [⟨3, 0x02, 3, [71]⟩] [] (exTs 1000000005) 1000000005 rfl (by unfold noTs; decide) (by unfold noTs; decide) rfl rfl (Or.inl rfl) (by decide) (by decide) (by decide) (by decide) ?_
+  refine TsMono.cons_ts [] [⟨0, 0x00, 3, [0]⟩] (exTs 1000000005) 1000000005 rfl (by unfold noTs; decide) (by unfold noTs; decide) rfl rfl (Or.inl rfl) (by decide) (by decide) (by decide) (by decide) ?_
+  refine TsMono.cons_ts [] [⟨3, 0x02, 3, [72]⟩] (exTs 1000000031) 1000000031 rfl (by unfold noTs; decide) (by unfold noTs; decide) rfl rfl (Or.inl rfl) (by decide) (by decide) (by decide) (by decide) ?_
+  refine TsMono.cons_ts [] [⟨3, 0x02, 3, [73]⟩] (exTs 1000000040) 1000000040 rfl (by unfold noTs; decide) (by unfold noTs; decide) rfl rfl (Or.inl rfl) (by decide) (by decide) (by decide) (by decide) ?_
+  trivial
+
 
 end Fit.C01
